@@ -293,3 +293,66 @@ pub fn cover_missing_bad(h: &Hdr) -> [u8; 17] {
     buf[16] = u8::from(h.c);
     buf
 }
+
+// ------------------------------------------------------------------ index-domain exactness (proof walkers)
+pub mod walk {
+    fn mix(a: u64, b: u64) -> u64 {
+        a.wrapping_mul(31).wrapping_add(b)
+    }
+
+    /// residual checked after the loop: accepts exactly index < 2^len
+    pub fn walk_residual_ok(hash: u64, index: usize, proof: &[u64]) -> Option<u64> {
+        let mut i = index;
+        let mut node = hash;
+        for h in proof.iter() {
+            node = if i % 2 == 0 { mix(node, *h) } else { mix(*h, node) };
+            i /= 2;
+        }
+        if i != 0 {
+            return None;
+        }
+        Some(node)
+    }
+
+    /// width checked up front, other spelling: accepts exactly index < 2^len
+    pub fn walk_width_ok(hash: u64, index: usize, proof: &[u64]) -> Option<u64> {
+        if index >= 1_usize << proof.len() {
+            return None;
+        }
+        let mut i = index;
+        let mut node = hash;
+        for h in proof.iter() {
+            node = if i % 2 == 0 { mix(node, *h) } else { mix(*h, node) };
+            i /= 2;
+        }
+        Some(node)
+    }
+
+    /// off by one: index == 2^len is accepted
+    pub fn walk_width_bad_off_by_one(hash: u64, index: usize, proof: &[u64]) -> Option<u64> {
+        if index > 1_usize << proof.len() {
+            return None;
+        }
+        let mut i = index;
+        let mut node = hash;
+        for h in proof.iter() {
+            node = if i % 2 == 0 { mix(node, *h) } else { mix(*h, node) };
+            i /= 2;
+        }
+        Some(node)
+    }
+
+    /// too strict: the last valid index is rejected
+    pub fn walk_width_bad_too_strict(hash: u64, index: usize, proof: &[u64]) -> Option<u64> {
+        if index + 1 >= 1_usize << proof.len() {
+            return None;
+        }
+        let mut i = index;
+        let mut node = hash;
+        for h in proof.iter() {
+            node = if i % 2 == 0 { mix(node, *h) } else { mix(*h, node) };
+            i /= 2;
+        }
+        Some(node)
+    }
+}
